@@ -155,4 +155,28 @@ def acceptsP (tbl : List (S × Conv)) (sch : Schema) (p : Package) : Bool := (va
 def unrolled (p : Package) (l : Loop) (k : Nat) : Doc :=
   { flatten p with comps := (flatten p).comps ++ (List.range k).flatMap (fun j => inst l (j + 1)) }
 
+/-! ### the binding check of a later iteration, and the load-time check as repaired
+
+`WorkflowGraph.instantiate_dowhile_next_iteration` calls `instantiate_dowhile` again with
+`foreign_components = get_component_identifiers(True, False)`: the components of the graph so far, WITHOUT the
+importing (`$import`) entries — while `package_document_load` compares the binding values with a set that contains
+those entries (`stubIds`).  A binding value that names an importing entry therefore passes the load and raises
+`FlowIRReferenceToUnknownComponent` when the next iteration is instantiated (unless a looped component reads the
+binding: then iteration 0 carries the reference and `validate (flatten p)` reports it). -/
+
+/-- what the binding check of `instantiate_dowhile` raises when iteration `k+1` of `l` is instantiated at run time -/
+def nextBindingErrors (p : Package) (l : Loop) (k : Nat) : List LoopErr :=
+  (l.bindings.filter (fun kv => !(ids (unrolled p l k)).contains kv.2)).map
+    (fun kv => LoopErr.bindingUnknown kv.1 kv.2)
+
+/-- decidable side condition: no binding value of `l` names an importing entry or the placeholder of a looped
+component (the two kinds of names the load-time check knows and the graph does not have as components) -/
+def bindingsAvoidImportEntries (p : Package) (l : Loop) : Bool :=
+  l.bindings.all (fun kv => !(stubIds p).contains kv.2 && !(p.loops.flatMap tmplIds).contains kv.2)
+
+/-- the load-time check as repaired by `fixes/C11-binding-to-import-entry.diff`: the importing entries are not
+among the components a binding value may name -/
+def validatePFixed (tbl : List (S × Conv)) (sch : Schema) (p : Package) : List PErr :=
+  loopErrorsFrom (ids p.main) p.loops ++ (validate tbl sch (flatten p)).map PErr.doc
+
 end St4sd.Validate
